@@ -373,6 +373,14 @@ impl<'a, C: Region, O: IndexContainer<C::Index>> Iterator for ReadSliceIter<'a, 
             Err(iter) => iter.next().map(IntoOwned::borrow_as),
         }
     }
+
+    #[inline]
+    fn size_hint(&self) -> (usize, Option<usize>) {
+        match &self.0 {
+            Ok(inner) => inner.size_hint(),
+            Err(iter) => iter.size_hint(),
+        }
+    }
 }
 
 impl<'a, R, O> ExactSizeIterator for ReadSliceIter<'a, R, O>
@@ -392,6 +400,11 @@ impl<'a, C: Region, O: IndexContainer<C::Index>> Iterator for ReadSliceIterInner
         self.1
             .next()
             .map(|idx| self.0.inner.index(self.0.slices.index(idx)))
+    }
+
+    #[inline]
+    fn size_hint(&self) -> (usize, Option<usize>) {
+        self.1.size_hint()
     }
 }
 
